@@ -16,7 +16,7 @@ Theorem c03_walker_tiles :
     walk fuel h off (concat es) = Some (walk_result off es tys).
 Proof. exact walk_concat. Qed.
 
-(* For every table in the walk registry (Proofs/Registry.v: MADT SRAT XSDT MCFG PPTT RHCT RIMT VIOT CEDT HEST), after every history
+(* For every table in the walk registry (Proofs/Registry.v: MADT SRAT XSDT MCFG PPTT RHCT RIMT VIOT CEDT HEST HMAT), after every history
    the model ACCEPTS, in both build profiles: from the specification's first-entry offset the walk over
    the emitted image finds exactly the entries that were added (in insertion order, with their own type codes and lengths),
    the image ends where the last entry ends, and the maintained entry count equals the number of entries. *)
@@ -33,8 +33,7 @@ Theorem c03_tables :
       t_cnt s = N.of_nat (length (t_ents s)).
 Proof. intros W _. exact (walktable_tiles W). Qed.
 
-(* HMAT (its structures carry a 32-bit length, so the instance needs each structure to be shorter than 2^32 bytes, which an
-   image shorter than 2^32 bytes guarantees): same statement, first entry at offset 40 *)
+(* HMAT spelled out (it is also in the registry): first entry at offset 40 *)
 Theorem c03_hmat :
   forall md md' c ops s0 s,
     hmat_new c = Some s0 -> run_adds (hmat_addition md) md' s0 ops = Some s -> N.of_nat (length (tbl_image s)) < 2 ^ 32 ->
